@@ -73,6 +73,7 @@ EXPECTED = (
      for cl in ('probabilities-in-unit-interval', 'probabilities-sum-to-one', 'zero-for-unavailable', 'equals-textbook',
                 'log-version-is-log-of-probability')] +
     [f'C05:bounded:tv:{fam}:invariant-under-common-shift-of-utilities' for fam in ('logit', 'nested', 'nested_mu', 'cnl', 'cnl_mu')] +
+    [f'C05:bounded:tv:{fam}:independent-of-nest-names-and-object-reuse' for fam in ('nested', 'nested_mu', 'cnl', 'cnl_mu')] +
     [f'C05:bounded:tv:ordered_{k}:{cl}' for k in ('logit', 'probit')
      for cl in ('probabilities-in-unit-interval', 'probabilities-sum-to-one', 'equals-textbook')] +
     ['C05:bounded:python-evaluator:agrees-with-sem', 'C05:bounded:compiled-engine:agrees-with-sem',
